@@ -31,7 +31,9 @@ def _mk(fn, end, rev):
             c.ensures("result.data_stream.position == 0 and result.data_stream.substream is stream", "fresh-view-on-the-sample-file")
         else:
             c.ensures("isinstance(result.data_stream, StreamReversed) and result.data_stream.sample_width == 2", "time-reversed-16-bit-words")
-            c.ensures(f"result.data_stream.end_of_file == 2 * {n} and result.data_stream.position == 0", "reversed-view-length")
+            # (the reversed view's own length is never negative - F16: for a well-formed sample, end >= start, it IS 2 * n; a sample whose start lies
+            # behind its end reads as empty)
+            c.ensures(f"result.data_stream.end_of_file == imax(0, 2 * {n}) and result.data_stream.position == 0", "reversed-view-length")
             c.ensures("isinstance(result.data_stream.substream, StreamOffset) and result.data_stream.substream.substream is stream", "over-a-window")
             c.ensures(f"result.data_stream.substream.offset == 2 * points.start and result.data_stream.substream.end_of_file == 2 * {n}",
                       "window-from-start-to-the-selected-end-inclusive")
@@ -63,7 +65,7 @@ def _tg(c):
               "result.data_streams[0].stream.end_of_file == nbytes() and result.data_streams[0].stream.substream is self._data_stream)",
               "forward-modes.window-start-to-mode-end")
     c.ensures("implies(reversed_mode(), isinstance(result.data_streams[0].stream, StreamReversed) and "
-              "result.data_streams[0].stream.sample_width == 2 and result.data_streams[0].stream.end_of_file == nbytes() and "
+              "result.data_streams[0].stream.sample_width == 2 and result.data_streams[0].stream.end_of_file == imax(0, nbytes()) and "
               "result.data_streams[0].stream.substream.offset == 2 * self.start_sample.address and "
               "result.data_streams[0].stream.substream.end_of_file == nbytes() and "
               "result.data_streams[0].stream.substream.substream is self._data_stream)",
